@@ -62,6 +62,11 @@ def gen_target(rng):
         fields.append([fn, t + (f"[{ln}]" if ln else "")])
     if rng.random() < 0.1:
         name += "_" + rng.choice(NONASCII).upper()
+    arr = [f for f in fields if "[" in f[1]]
+    if arr and rng.random() < 0.15:
+        # a blank between the type and its length (every variant then spells it that way: the spelling is part of the text)
+        f = rng.choice(arr)
+        f[1] = f[1].replace("[", " [", 1)
     if fields and rng.random() < 0.2:
         # a field named with a plain word that older YAML versions read as a boolean
         fields[rng.randrange(len(fields))][0] = rng.choice(["on", "off", "yes", "no"])
@@ -106,6 +111,13 @@ def surround(t, rng, variant):
         # an unrelated file of the import graph that declares an older YAML version is read first
         return {"r.yaml": "imports:\n  - legacy.yaml\n  - lib.yaml\nmessage_defs:\n" + other_a + "\n", "legacy.yaml": "%YAML 1.1\n---\nconstants:\n  K_OLD: 3\n",
                 "lib.yaml": consts + "message_defs:\n" + tgt + "\n"}, "r.yaml"
+    if variant == "anchor_shared":
+        # another definition listed first shares the very same field mapping through a YAML anchor; the target refers to it by alias
+        if not t["fields"]:
+            return {"r.yaml": consts + "message_defs:\n" + tgt + "\n"}, "r.yaml"
+        flds = "\n".join(f"      {f[0]}: {f[1]}" for f in t["fields"])
+        return {"r.yaml": consts + "message_defs:\n  OTH_ANCHOR:\n    id: 9103\n    fields: &shared_fields\n" + flds
+                + f"\n  {t['name']}:\n    id: {t['id']}\n    fields: *shared_fields\n"}, "r.yaml"
     if variant == "importer_of_consts":
         return {"r.yaml": "imports:\n  - k.yaml\nmessage_defs:\n" + tgt + "\n", "k.yaml": consts}, "r.yaml"
     if variant == "fields_before_id":
@@ -126,7 +138,7 @@ def surround(t, rng, variant):
     raise ValueError(variant)
 
 
-VARIANTS = ["plain", "comments", "others_before", "others_after", "sections_reordered", "imported", "subdir", "diamond", "importer_of_consts", "indent4", "fields_before_id", "flow_style", "after_yaml11_import"]
+VARIANTS = ["plain", "comments", "others_before", "others_after", "sections_reordered", "imported", "subdir", "diamond", "importer_of_consts", "indent4", "fields_before_id", "flow_style", "after_yaml11_import", "anchor_shared"]
 
 
 def edits(t, rng):
